@@ -139,6 +139,58 @@ def main() -> None:
         except Exception as e:  # noqa: BLE001
             rec["walk_error"] = f"{type(e).__name__}: {e}"
 
+    if args.get("trace_todo"):
+        # observation of the TODO-marker bookkeeping of the stub generator: every add to the pending set ("raise"), every
+        # flush with the set it wrote, and the entry of every declaration renderer, in order
+        try:
+            import safeds_stubgen.api_analyzer  # noqa: F401
+            from safeds_stubgen.stubs_generator import _stub_string_generator as sg
+
+            rec["todo"] = []
+            G = sg.StubsStringGenerator
+
+            def ev(*a):
+                if len(rec["todo"]) < 2000000:
+                    rec["todo"].append(list(a))
+
+            class LogSet(set):
+                def add(self, x):
+                    ev("raise", x)
+                    return set.add(self, x)
+
+            G._current_todo_msgs = property(lambda self: self.__dict__.get("_sdsv_ctm"),
+                                            lambda self, val: self.__dict__.__setitem__("_sdsv_ctm", LogSet(val)))
+
+            def wrap(name, enter=None, leave=None):
+                orig = getattr(G, name)
+
+                def w(self, *a, **k):
+                    if enter:
+                        ev(enter, name)
+                    try:
+                        return orig(self, *a, **k)
+                    finally:
+                        if leave:
+                            ev(leave, name)
+                setattr(G, name, w)
+
+            for nm in ("_create_class_string", "_create_function_string", "_create_property_function_string", "_create_class_attribute_string",
+                       "_create_class_method_string", "_create_enum_string"):
+                wrap(nm, enter="enter")
+            wrap("_create_module_string", enter="begin", leave="end")
+            wrap("create_reexport_module_strings", enter="begin-reexports", leave="end")
+            orig_flush = G._create_todo_msg
+
+            def flush(self, indentations):
+                before = sorted(self._current_todo_msgs)
+                out = orig_flush(self, indentations)
+                ev("flush", before, out.count("// TODO"), len(self._current_todo_msgs))
+                return out
+
+            G._create_todo_msg = flush
+        except Exception as e:  # noqa: BLE001
+            rec["todo_error"] = f"{type(e).__name__}: {e}"
+
     sys.argv = ["safe-ds-stubgen", *args["argv"]]
     so = io.StringIO()
     old = sys.stdout
